@@ -25,7 +25,9 @@ def materialise(case):
         n[0] += 1
         with open(p, "w") as fh:
             fh.write(STMT.format(n[0]))
-    # fixed furniture: link targets
+    # fixed furniture: an enclosing directory that is a Breadlog project of its own (its lock is not ours), link targets
+    with open(os.path.join(root, "work", "Breadlog.lock"), "w") as fh:
+        fh.write(bl.LOCK_HEADER + "next_reference_id: 50\n")
     put("src/real_target.dat")
     put("outside/o_target.rs")
     for e in case["layout"]:
